@@ -155,6 +155,8 @@ def run_shard(spec, acc):
         for i in range(spec["n"]):
             if i % 25 == 0:
                 long_lived_process(rnd, acc)
+            if i % 10 == 3:
+                subclassed_builder(rnd, acc)
             if rnd.random() < 0.15:
                 kind = rnd.choice(["arch", "arch", "rule"])
                 k = rnd.randint(2, 3)
@@ -254,6 +256,38 @@ def long_lived_process(rnd, acc, forced=None):
     acc.count("definitions_created_up_front_and_written_one_after_the_other", plan_["upfront"])
 
 
+def subclassed_builder(rnd, acc, forced=None):
+    """A user subclass of LayeredArchitecture that overrides the two definition methods - it qualifies every module name
+    with the application's base package and delegates to the base class, for the string form and for the list form alike.
+    The base class sees each definition exactly once; what it records is what it was handed."""
+    from pytestarch import LayeredArchitecture
+
+    class Qualified(LayeredArchitecture):
+        def containing_modules(self, modules):
+            if isinstance(modules, list):
+                return super().containing_modules(["app." + m for m in modules])
+            return super().containing_modules("app." + modules)
+
+        def have_modules_with_names_matching(self, regex):
+            return super().have_modules_with_names_matching("app\\." + regex)
+
+    seq = forced["seq"] if forced else [rnd.choice(ARCH_VOCAB) for _ in range(rnd.randint(4, 10))]
+    seq = [tuple(x) if not isinstance(x[1], list) else (x[0], x[1]) for x in seq]
+    HUB.case = {"kind": "subclassed", "seq": seq}
+    arch = Qualified()
+    for sym in seq:
+        try:
+            _apply(arch, sym)
+        except Exception:  # noqa: BLE001  (judged by the trace monitor)
+            pass
+        acc.evaluated()
+    try:
+        str(arch)
+    except Exception:  # noqa: BLE001
+        pass
+    acc.count("definitions_written_through_a_user_subclass")
+
+
 def interleaved_builders(seqs, schedule, kind, acc):
     """Two or three builders of the same class executing their own call sequences with the calls interleaved (continuing
     after rejected calls): the trace monitor judges every call against the history of the object it was made on."""
@@ -284,6 +318,8 @@ def interleaved_builders(seqs, schedule, kind, acc):
 
 
 def replay(case, acc):
+    if case["kind"] == "subclassed":
+        return subclassed_builder(random.Random(0), acc, forced=case)
     if case["kind"] == "long-lived":
         return long_lived_process(random.Random(0), acc, forced=case)
     if case["kind"] == "interleaved":
@@ -308,7 +344,7 @@ def replay(case, acc):
 
 def floors(acc, tier):
     why = []
-    for c, n in (("c16_arch_violating_calls", 1000), ("c16_rule_violating_calls", 100), ("c16_accepted_definitions_checked", 1000), ("sequences", 5000), ("builders_driven_interleaved", 100), ("definitions_continued_after_other_architectures_were_defined", 50), ("definitions_created_up_front_and_written_one_after_the_other", 100)):
+    for c, n in (("c16_arch_violating_calls", 1000), ("c16_rule_violating_calls", 100), ("c16_accepted_definitions_checked", 1000), ("sequences", 5000), ("builders_driven_interleaved", 100), ("definitions_continued_after_other_architectures_were_defined", 50), ("definitions_written_through_a_user_subclass", 100), ("definitions_created_up_front_and_written_one_after_the_other", 100)):
         if acc.counters[c] < n:
             why.append(f"{c}: only {acc.counters[c]}")
     h = acc.hists.get("c16_violating_kind", {})
